@@ -597,6 +597,12 @@ class StmtExec(Exec):
             ne, hd, tl = iter_head_tail(self.rewrap(itv, it.env[g_rest]))
             it.assume(ne)
             item = hd
+            # iterating a dict: the current key is a key of the iterated dict (python iteration semantics)
+            full_v = it.env.get(g_it)
+            if isinstance(full_v, V) and isinstance(full_v.ty, DictT):
+                cur_rest = self.rewrap(itv, it.env[g_rest])
+                rest_d = cur_rest.d if isinstance(cur_rest, DictItems) else cur_rest
+                it.assume(full_v.ty.fn("has")(full_v.t, full_v.ty.k(rest_d.t)))
             tl_v = tl.d if isinstance(tl, DictItems) else tl
             it.env[g_rest] = it.env["_rest"] = tl_v
             if idx_start is not None:
